@@ -15,7 +15,9 @@ CORE = [R + f for f in (
     "uclock_std.c", "udict_dump.c", "uprobe_dejitter.c", "uprobe_syslog.c", "ubuf_pic_clear.c", "uprobe_source_mgr.c",
 )]
 
+BLK = [R + "umem_alloc.c", R + "ubuf_block_mem.c", R + "ubuf_mem_common.c"]
 HARNESSES = {
+    "c03_block": {"src": [H + "c03_block.c"] + BLK},
     "c18_bits": {"src": [H + "c18_bits.c", R + "umem_alloc.c", R + "ubuf_block_mem.c", R + "ubuf_mem_common.c"]},
 }
 
@@ -50,4 +52,26 @@ CHECKS = {
                    "thorough": "write: depth 4 (3 values), depth 6 on 12 edge widths; stream: depth 2 full x 5 values, depth 4 edge widths x 3 values"},
         "assumptions": DEFAULT_ASSUME + ["block bit-stream reader is asked for at most 16 bits per fill (documented limit is available<=32)"],
     },
+}
+
+def _c03_jobs(depth, maxn, deadline):
+    cfgs = [(0, 0, 0, 0), (3, 0, 0, 0), (3, 2, 4, 2), (-1, -1, -1, 0)]
+    jobs = []
+    for (pp, ap, al, pool) in cfgs:
+        for n0 in (0, 3):
+            jobs.append(("c03_block", ["--prepend", pp, "--append", ap, "--align", al, "--pool", pool,
+                                       "--n0", n0, "--maxn", maxn, "--depth", depth, "--deadline", deadline]))
+    return jobs
+
+CHECKS["C03"] = {
+    "engine": "seqx", "design_ref": "DESIGN.md section 3 C03",
+    "technique": "explicit-state BFS over block mutator sequences on real ubuf_block/ubuf_block_mem vs a byte-vector model, full accessor sweep on every distinct state",
+    "level_text": "All sequences of append/insert/delete/truncate/resize/prepend/splice/split/copy/merge/dup (with in-range, boundary, negative and out-of-range arguments) up to the stated depth, on 4 manager configurations and two initial sizes; every transition checks result, size, content and error-leaves-unchanged by walking the segment chain; every distinct state (segmentation + offset caches) gets the full accessor sweep at all offsets/sizes. Bounded, not a proof.",
+    "level_note": "Trusted: the byte-vector model and the direct walk of public struct ubuf_block fields. Outside: blocks longer than maxn bytes / more than 4 segments, deeper sequences, negative offsets for insert/delete/truncate (not defined by the header).",
+    "jobs": {"quick": _c03_jobs(4, 4, 75), "thorough": _c03_jobs(5, 6, 840)},
+    "rule": "BFS, key = per block: segments (area index, offset, size), total_size, offset-cache segment+offset, end-cache segment; "
+            "non-trivial = distinct states whose main block is segmented",
+    "bounds": {"quick": "depth 4 (cap 75 s/job), blocks <= 4 bytes, <= 4 segments, 8 jobs (4 manager configs x initial size 0/3)",
+               "thorough": "depth 5 (cap 14 min/job), blocks <= 6 bytes"},
+    "assumptions": DEFAULT_ASSUME + ["accessor sweep is run once per distinct canonical state (its outcome is a function of that state)"],
 }
